@@ -1,0 +1,162 @@
+//go:build verif
+// +build verif
+
+package vmcommon
+
+// Contracts for govc, the contract-based deductive verifier kept in /verif (see /verif/DESIGN.md).
+// This file is compiled only under the "verif" build tag. The //@ lines are machine-checked
+// specifications of the functions of this package; the lemma* functions are ghost clients that
+// exist only to state level-2 lemmas over those contracts (they are verified against the callee
+// contracts, never executed).
+
+//@ ginv len(SystemAccountAddress) == 32 && seq(SystemAccountAddress)[0] == 255
+//@ ginv byteseq(ESDTSCAddress, "\x00\x00\x00\x00\x00\x00\x00\x00\x00\x01\x00\x00\x00\x00\x00\x00\x00\x00\x00\x00\x00\x00\x00\x00\x00\x00\x00\x00\x00\x02\xff\xff")
+
+//@ func init
+
+//@ func IsSystemAccountAddress
+//@   ensures[C20] r == (len(address) >= 30 && seq(address)[0:30] == seq(SystemAccountAddress)[0:30])
+
+//@ func IsEmptyAddress
+//@   ensures[C20] r == (seq(address) == bzeros(len(address)))
+
+//@ func IsSmartContractAddress
+//@   ensures[C20,C05,C09] r == (len(rcvAddress) > 10 && (seq(rcvAddress) == bzeros(len(rcvAddress)) || seq(rcvAddress)[0:8] == bzeros(8)))
+
+//@ func IsMetachainIdentifier
+//@   loop 0 invariant i <= len(identifier) && forall(j, int, 0 <= j && j < i ==> seq(identifier)[j] == 255)
+//@   ensures[C20] r == (len(identifier) > 0 && forall(j, int, 0 <= j && j < len(identifier) ==> seq(identifier)[j] == 255))
+
+//@ func IsSmartContractOnMetachain
+//@   ensures[C20] r == (len(rcvAddress) > 25 && (len(identifier) > 0 && forall(j, int, 0 <= j && j < len(identifier) ==> seq(identifier)[j] == 255)) && (seq(rcvAddress) == bzeros(len(rcvAddress)) || seq(rcvAddress)[0:8] == bzeros(8)) && seq(rcvAddress)[10:25] == bzeros(15))
+
+//@ func IsAllowedToSaveUnderKey
+//@   ensures[C05,C20] r == !(len(key) >= 6 && seq(key)[0:6] == "ELROND")
+
+//@ func SafeSubUint64
+//@   results r, err
+//@   ensures[C06,C20] (a < b ==> err != nil && r == 0) && (a >= b ==> err == nil && r == a - b)
+
+//@ func CodeMetadataFromBytes
+//@   ensures[C20] len(bytes) != 2 ==> !r.Payable && !r.Upgradeable && !r.Readable
+//@   ensures[C20] len(bytes) == 2 ==> r.Upgradeable == (seq(bytes)[0] % 2 == 1) && r.Readable == ((seq(bytes)[0] / 4) % 2 == 1) && r.Payable == ((seq(bytes)[1] / 2) % 2 == 1)
+
+//@ func (metadata *CodeMetadata) ToBytes
+//@   requires metadata != nil
+//@   ensures[C20] len(r) == 2 && seq(r)[0] == ite(metadata.Upgradeable, 1, 0) + ite(metadata.Readable, 4, 0) && seq(r)[1] == ite(metadata.Payable, 2, 0)
+
+// lemmaCodeMetadataRoundTrip: FromBytes(ToBytes(m)) == m for every m
+func lemmaCodeMetadataRoundTrip(m CodeMetadata) CodeMetadata {
+	return CodeMetadataFromBytes(m.ToBytes())
+}
+
+//@ func lemmaCodeMetadataRoundTrip
+//@   ensures[C20] r.Payable == m.Payable && r.Upgradeable == m.Upgradeable && r.Readable == m.Readable
+
+// lemmaCodeMetadataBytesRoundTrip: ToBytes(FromBytes(b)) == b & mask for every byte pair, and the
+// empty value for every other length
+func lemmaCodeMetadataBytesRoundTrip(b []byte) []byte {
+	m := CodeMetadataFromBytes(b)
+	return m.ToBytes()
+}
+
+//@ func lemmaCodeMetadataBytesRoundTrip
+//@   ensures[C20] len(r) == 2
+//@   ensures[C20] len(b) == 2 ==> seq(r)[0] == (seq(b)[0] % 2) + ((seq(b)[0] / 4) % 2) * 4 && seq(r)[1] == ((seq(b)[1] / 2) % 2) * 2
+//@   ensures[C20] len(b) != 2 ==> seq(r)[0] == 0 && seq(r)[1] == 0
+
+// lemmaMetachainContractIsContract: a metachain contract address is a contract address
+func lemmaMetachainContractIsContract(identifier []byte, address []byte) bool {
+	if IsSmartContractOnMetachain(identifier, address) {
+		return IsSmartContractAddress(address)
+	}
+	return true
+}
+
+//@ func lemmaMetachainContractIsContract
+//@   ensures[C20] r
+
+// lemmaDocumentedAddresses*: the system account address is a system account address and not a
+// contract address; the ESDT system contract address is a contract address on the metachain and not
+// a system account address
+func lemmaDocumentedAddresses1() bool { return IsSystemAccountAddress(SystemAccountAddress) }
+
+//@ func lemmaDocumentedAddresses1
+//@   ensures[C20] r
+
+func lemmaDocumentedAddresses2() bool { return !IsSmartContractAddress(SystemAccountAddress) }
+
+//@ func lemmaDocumentedAddresses2
+//@   ensures[C20] r
+
+func lemmaDocumentedAddresses3() bool { return IsSmartContractAddress(ESDTSCAddress) }
+
+//@ func lemmaDocumentedAddresses3
+//@   ensures[C20] r
+
+func lemmaDocumentedAddresses4() bool {
+	return IsSmartContractOnMetachain([]byte{255}, ESDTSCAddress)
+}
+
+//@ func lemmaDocumentedAddresses4
+//@   ensures[C20] r
+
+func lemmaDocumentedAddresses5() bool { return !IsSystemAccountAddress(ESDTSCAddress) }
+
+//@ func lemmaDocumentedAddresses5
+//@   ensures[C20] r
+
+// ---- merging of output accounts (C20) ----------------------------------------------------------
+
+//@ func (o *OutputAccount) MergeStorageUpdates
+//@   requires o != nil && outAcc != nil && o != outAcc
+//@   requires o.StorageUpdates == nil || o.StorageUpdates != outAcc.StorageUpdates
+//@   loop 0 invariant o.StorageUpdates != nil && o.StorageUpdates != outAcc.StorageUpdates
+//@   loop 0 invariant forall(k, bseq, visited(0)[k] ==> has(o.StorageUpdates, k) && o.StorageUpdates[k] == outAcc.StorageUpdates[k])
+//@   loop 0 invariant forall(k, bseq, !visited(0)[k] ==> has(o.StorageUpdates, k) == old(has(o.StorageUpdates, k)) && (has(o.StorageUpdates, k) ==> o.StorageUpdates[k] == old(o.StorageUpdates[k])))
+//@   loop 0 invariant forall(k, bseq, visited(0)[k] ==> has(outAcc.StorageUpdates, k))
+//@   loop 0 invariant frame(old(o.StorageUpdates))
+//@   ensures[C20] o.StorageUpdates != nil && o.StorageUpdates != outAcc.StorageUpdates
+//@   ensures[C20] forall(k, bseq, has(outAcc.StorageUpdates, k) ==> has(o.StorageUpdates, k) && o.StorageUpdates[k] == outAcc.StorageUpdates[k])
+//@   ensures[C20] forall(k, bseq, !has(outAcc.StorageUpdates, k) ==> has(o.StorageUpdates, k) == old(has(o.StorageUpdates, k)) && (has(o.StorageUpdates, k) ==> o.StorageUpdates[k] == old(o.StorageUpdates[k])))
+//@   ensures[C20] o.StorageUpdates == old(o.StorageUpdates) || fresh(o.StorageUpdates)
+//@   modifies o.StorageUpdates, map(o.StorageUpdates), newmap(o.StorageUpdates)
+
+//@ func (o *OutputAccount) MergeOutputAccounts
+//@   requires o != nil && outAcc != nil && o != outAcc
+//@   requires o.StorageUpdates == nil || o.StorageUpdates != outAcc.StorageUpdates
+//@   requires o.BalanceDelta == nil || o.BalanceDelta != outAcc.BalanceDelta
+//@   requires o.OutputTransfers == nil || arr(o.OutputTransfers) != arr(outAcc.OutputTransfers)
+//@   ensures[C20] o.BalanceDelta != nil && bigval(o.BalanceDelta) == old(ite(o.BalanceDelta == nil, 0, bigval(o.BalanceDelta))) + old(ite(outAcc.BalanceDelta == nil, 0, bigval(outAcc.BalanceDelta)))
+//@   ensures[C20] o.BalanceDelta != outAcc.BalanceDelta
+//@   ensures[C20] o.Nonce == old(ite(outAcc.Nonce > o.Nonce, outAcc.Nonce, o.Nonce))
+//@   ensures[C20] len(o.OutputTransfers) == old(ite(len(outAcc.OutputTransfers) > len(o.OutputTransfers), len(outAcc.OutputTransfers), len(o.OutputTransfers)))
+//@   ensures[C20] forall(j, int, 0 <= j && j < old(len(o.OutputTransfers)) ==> o.OutputTransfers[j] == old(o.OutputTransfers[j]))
+//@   ensures[C20] forall(j, int, old(len(o.OutputTransfers)) <= j && j < len(o.OutputTransfers) ==> o.OutputTransfers[j] == outAcc.OutputTransfers[j])
+//@   ensures[C20] o.OutputTransfers == nil || arr(o.OutputTransfers) != arr(outAcc.OutputTransfers)
+//@   ensures[C20] arr(o.OutputTransfers) == old(arr(o.OutputTransfers)) || fresh(o.OutputTransfers)
+//@   ensures[C20] o.BalanceDelta == old(o.BalanceDelta) || fresh(o.BalanceDelta)
+//@   ensures[C20] o.StorageUpdates == old(o.StorageUpdates) || fresh(o.StorageUpdates)
+//@   ensures[C20] o.StorageUpdates != nil && o.StorageUpdates != outAcc.StorageUpdates
+//@   ensures[C20] forall(k, bseq, has(outAcc.StorageUpdates, k) ==> has(o.StorageUpdates, k) && o.StorageUpdates[k] == outAcc.StorageUpdates[k])
+//@   ensures[C20] forall(k, bseq, !has(outAcc.StorageUpdates, k) ==> has(o.StorageUpdates, k) == old(has(o.StorageUpdates, k)) && (has(o.StorageUpdates, k) ==> o.StorageUpdates[k] == old(o.StorageUpdates[k])))
+//@   modifies o.*, bigval(o.BalanceDelta), map(o.StorageUpdates), newmap(o.StorageUpdates), elems(o.OutputTransfers), newelems(o.OutputTransfers), new(big.Int)
+
+// lemmaMergeTwice: merging a and then b into o never writes anything reachable from a - not its
+// fields, not its balance delta, not its output transfers, not its storage-update map - provided o
+// was constructed separately from a and b
+func lemmaMergeTwice(o, a, b *OutputAccount) {
+	o.MergeOutputAccounts(a)
+	o.MergeOutputAccounts(b)
+}
+
+//@ func lemmaMergeTwice
+//@   requires o != nil && a != nil && b != nil && o != a && o != b
+//@   requires o.StorageUpdates == nil || (o.StorageUpdates != a.StorageUpdates && o.StorageUpdates != b.StorageUpdates)
+//@   requires o.BalanceDelta == nil || (o.BalanceDelta != a.BalanceDelta && o.BalanceDelta != b.BalanceDelta)
+//@   requires o.OutputTransfers == nil || (arr(o.OutputTransfers) != arr(a.OutputTransfers) && arr(o.OutputTransfers) != arr(b.OutputTransfers))
+//@   ensures[C20] a.BalanceDelta == old(a.BalanceDelta) && (a.BalanceDelta != nil ==> bigval(a.BalanceDelta) == old(bigval(a.BalanceDelta)))
+//@   ensures[C20] len(a.OutputTransfers) == old(len(a.OutputTransfers)) && arr(a.OutputTransfers) == old(arr(a.OutputTransfers))
+//@   ensures[C20] forall(j, int, 0 <= j && j < len(a.OutputTransfers) ==> a.OutputTransfers[j] == old(a.OutputTransfers[j]))
+//@   ensures[C20] forall(k, bseq, has(a.StorageUpdates, k) == old(has(a.StorageUpdates, k)) && a.StorageUpdates[k] == old(a.StorageUpdates[k]))
+//@   modifies o.*, bigval(o.BalanceDelta), map(o.StorageUpdates), elems(o.OutputTransfers)
